@@ -248,7 +248,15 @@ class Gen:
         if self.hdr_variants and self.maybe(0.3):
             for cn in ('numGroups', 'numVarDataFields'):
                 if self.maybe(0.7):
-                    elems.insert(r.randint(0, len(elems)), {'k': 'type', 'name': cn, 'prim': r.choice(UNSIGNED)})
+                    prim = r.choice(UNSIGNED)
+                    if self.maybe(0.4):
+                        # counter declared through a <ref>, like the required members above
+                        tn = self.name('HT')
+                        types.append({'k': 'type', 'name': tn, 'prim': prim})
+                        elems.insert(r.randint(0, len(elems)), {'k': 'ref', 'name': cn, 'type': tn})
+                        self.hit('hdr.' + cn + '_ref')
+                    else:
+                        elems.insert(r.randint(0, len(elems)), {'k': 'type', 'name': cn, 'prim': prim})
                     self.hit('hdr.' + cn)
         if self.hdr_variants and self.maybe(0.3):
             self.add_offsets(elems, types)
@@ -428,8 +436,10 @@ class Gen:
                 f = {'name': self.name('f'), 'id': self.n, 'type': ty}
                 const = t['k'] == 'type' and t.get('presence') == 'constant'
                 size = self.elem_size(t, types)
-                if t['k'] == 'enum' and self.maybe(0.2):
+                if t['k'] in ('enum', 'set', 'composite') and self.maybe(0.25):
+                    # declared presence that the actual-presence rules override (enum/set) or pass through
                     f['presence'] = 'optional'
+                    self.hit('field.optional_' + t['k'])
             if not const:
                 if self.maybe(0.25):
                     cur += r.choice([0, 1, 2, 5])
